@@ -1305,6 +1305,10 @@ class Context:
             end += 1
         if end == 0:
             return float("nan")
+        if end > 1100:
+            # Any 1100 digits in any radix exceed the double range (and the
+            # host refuses to convert very long digit strings to int)
+            return float("-inf") if negative else float("inf")
         result = int(s[:end], radix)
         if result == 0:
             return -0.0 if negative else 0
